@@ -4,9 +4,11 @@ import (
 	"go/constant"
 	"go/token"
 	"go/types"
+	"sort"
 	"strings"
 
 	"golang.org/x/tools/go/ssa"
+	"golang.org/x/tools/go/ssa/ssautil"
 )
 
 // edge is a CFG edge From -> From.Succs[Idx].
@@ -476,7 +478,25 @@ func valueDesc(v ssa.Value) string {
 // slices, and calls' arguments when throughCalls is set.
 func derivesFrom(v ssa.Value, pred func(ssa.Value) bool, throughCalls bool) bool {
 	seen := map[ssa.Value]bool{}
+	hops := 0
 	var rec func(v ssa.Value, d int) bool
+	// viaReturns: result idx of the unexported in-module helper g derives from what g returns there
+	// (error results are not data)
+	var ctxStack []*ssa.Call // calls entered through their results (innermost last)
+	viaReturns := func(g *ssa.Function, idx int, d int, at *ssa.Call) bool {
+		if idx >= g.Signature.Results().Len() || isErrorType(g.Signature.Results().At(idx).Type()) {
+			return false
+		}
+		hops++
+		ctxStack = append(ctxStack, at)
+		defer func() { hops--; ctxStack = ctxStack[:len(ctxStack)-1] }()
+		for _, r := range returnsOf(g) {
+			if idx < len(r.Results) && rec(unspill(r.Results[idx]), d+1) {
+				return true
+			}
+		}
+		return false
+	}
 	rec = func(v ssa.Value, d int) bool {
 		if v == nil || seen[v] || d > 40 {
 			return false
@@ -511,6 +531,19 @@ func derivesFrom(v ssa.Value, pred func(ssa.Value) bool, throughCalls bool) bool
 		case *ssa.BinOp:
 			return rec(x.X, d+1) || rec(x.Y, d+1)
 		case *ssa.Extract:
+			if cl, ok := x.Tuple.(*ssa.Call); ok {
+				if g := plainHelper(cl.Call.StaticCallee()); g != nil && hops < 3 {
+					if pred(cl) {
+						return true
+					}
+					if viaReturns(g, x.Index, d, cl) {
+						return true
+					}
+					if !throughCalls {
+						return false
+					}
+				}
+			}
 			return rec(x.Tuple, d+1)
 		case *ssa.Phi:
 			for _, e := range x.Edges {
@@ -573,10 +606,101 @@ func derivesFrom(v ssa.Value, pred func(ssa.Value) bool, throughCalls bool) bool
 					return rec(x.Call.Value, d+1)
 				}
 			}
+			// the result of an unexported in-module helper derives from what the helper returns (the code
+			// reads the same after the helper is inlined back)
+			if g := plainHelper(x.Call.StaticCallee()); g != nil && hops < 3 && g.Signature.Results().Len() == 1 {
+				return viaReturns(g, 0, d, x)
+			}
+		case *ssa.Parameter:
+			// a parameter of an unexported in-module helper derives from the arguments at its call sites
+			if g := plainHelper(x.Parent()); g != nil && hops < 3 {
+				idx := -1
+				for i, p := range g.Params {
+					if p == x {
+						idx = i
+					}
+				}
+				if idx < 0 {
+					return false
+				}
+				// entered through the result of one particular call: the parameter is that call's argument
+				for i := len(ctxStack) - 1; i >= 0; i-- {
+					if sc := ctxStack[i].Call.StaticCallee(); sc != nil && origin(sc) == g {
+						saved := ctxStack
+						ctxStack = ctxStack[:i]
+						r := idx < len(saved[i].Call.Args) && rec(saved[i].Call.Args[idx], d+1)
+						ctxStack = saved
+						return r
+					}
+				}
+				hops++
+				for _, site := range gCallSites[g] {
+					if args := site.Common().Args; idx < len(args) && site.Parent() != g {
+						if rec(args[idx], d+1) {
+							hops--
+							return true
+						}
+					}
+				}
+				hops--
+			}
 		}
 		return false
 	}
 	return rec(v, 0)
+}
+
+// gCallSites: static call sites of every function with a body, built once per load.
+var gCallSites map[*ssa.Function][]ssa.CallInstruction
+
+// gAddrTaken: functions used as values (not only called).
+var gAddrTaken map[*ssa.Function]bool
+
+func buildCallSites(prog *ssa.Program) {
+	gCallSites = map[*ssa.Function][]ssa.CallInstruction{}
+	gAddrTaken = map[*ssa.Function]bool{}
+	for f := range ssautil.AllFunctions(prog) {
+		if !inModule(f) {
+			continue
+		}
+		for _, b := range f.Blocks {
+			for _, in := range b.Instrs {
+				if ci, ok := in.(ssa.CallInstruction); ok {
+					if callee := ci.Common().StaticCallee(); callee != nil && inModule(callee) {
+						callee = origin(callee)
+						gCallSites[callee] = append(gCallSites[callee], ci)
+					}
+				}
+				for _, op := range in.Operands(nil) {
+					if op == nil || *op == nil {
+						continue
+					}
+					if fn, ok := (*op).(*ssa.Function); ok {
+						if ci, ok := in.(ssa.CallInstruction); ok && ci.Common().Value == fn {
+							continue
+						}
+						gAddrTaken[origin(fn)] = true
+					}
+				}
+			}
+		}
+	}
+	for _, sites := range gCallSites {
+		sort.Slice(sites, func(i, j int) bool { return sites[i].Pos() < sites[j].Pos() })
+	}
+}
+
+// plainHelper: f when it is an unexported in-module function or method with a body (the kind of
+// function an extract-method refactoring creates), else nil.
+func plainHelper(f *ssa.Function) *ssa.Function {
+	if f == nil {
+		return nil
+	}
+	f = origin(f)
+	if len(f.Blocks) == 0 || !inModule(f) || f.Object() == nil || f.Object().Exported() || f.Parent() != nil {
+		return nil
+	}
+	return f
 }
 
 // storesTo lists Store instructions whose address is exactly addr (same SSA value)
@@ -757,4 +881,72 @@ func copiedInto(sl *ssa.Slice) []ssa.Value {
 		}
 	}
 	return out
+}
+
+// rejectLowerBound: the If's successor rejIdx is the rejecting edge. When the condition compares a
+// value with a constant so that the edge is taken exactly for X >= L, it returns X and L - whichever
+// way the comparison is spelt (x >= k, x > k-1, !(x < k), k <= x, branches swapped).
+func rejectLowerBound(ifi *ssa.If, rejIdx int) (ssa.Value, int64, bool) {
+	bo, ok := ifi.Cond.(*ssa.BinOp)
+	if !ok {
+		return nil, 0, false
+	}
+	x, op := bo.X, bo.Op
+	k, okK := constInt(bo.Y)
+	if !okK {
+		kk, okX := constInt(bo.X)
+		if !okX {
+			return nil, 0, false
+		}
+		k, x = kk, bo.Y
+		switch op {
+		case token.LSS:
+			op = token.GTR
+		case token.LEQ:
+			op = token.GEQ
+		case token.GTR:
+			op = token.LSS
+		case token.GEQ:
+			op = token.LEQ
+		}
+	}
+	truth := rejIdx == 0
+	switch {
+	case truth && op == token.GEQ, !truth && op == token.LSS:
+		return x, k, true
+	case truth && op == token.GTR, !truth && op == token.LEQ:
+		return x, k + 1, true
+	}
+	return nil, 0, false
+}
+
+// helperOf: f is an unexported helper (never used as a value) every call site of which lies in a
+// function for which owner holds, or in another such helper: after inlining, its code belongs to
+// those functions. Returns the name of one owning function.
+func helperOf(f *ssa.Function, owner func(name string) bool, depth int) (string, bool) {
+	h := plainHelper(f)
+	if h == nil || gAddrTaken[h] || len(gCallSites[h]) == 0 || depth > 2 {
+		return "", false
+	}
+	via := ""
+	for _, site := range gCallSites[h] {
+		p := site.Parent()
+		for p.Parent() != nil {
+			p = p.Parent()
+		}
+		p = origin(p)
+		if p == h {
+			continue
+		}
+		if owner(fnName(p)) {
+			via = fnName(p)
+			continue
+		}
+		if v, ok := helperOf(p, owner, depth+1); ok {
+			via = v
+			continue
+		}
+		return "", false
+	}
+	return via, via != ""
 }
